@@ -24,6 +24,8 @@ CLAIMS = {
          "not under contract: HStore.Set gate (goes through checkAndSet), route table decoding (config.Server.Decode), NewHStore's choice of buckets to open, upper-level listing, directory naming (string formatting)"),
  "C16": ("fnv1a (both copies), value hash, key-hash composition, CRC-32 table (256 ground obligations) and table step lemma proved for all inputs",
          "assumed + bounded differential: murmur3 library, the C CRC loop (crc32.write)"),
+ "C02": ("the two replay loops of a restart, step by step, for every file content: buildHintFromData turns every record the scanner delivers from the start offset on into exactly one hint item carrying the record's key, key hash, version (tombstones included) and offset (ghost counters: items indexed = records scanned; step assertion per item); updateHtreeFromHint applies every item the hint reader delivers exactly once: a live version points the slot of its key hash at (chunk, offset) with the item's version and value hash, a tombstone removes the slot unconditionally (step assertions against the tree view; counters: items applied = items read)",
+         "protocol level and partial: not under contract are Bucket.open (which files are replayed, in which order, which dump is loaded), checkHintWithData's decision, tree dump/load, hint dumping at close, the value-hash computation during the rebuild (bit-level contracts of C10/C16 are not usable from these mathematical-integer loops), and the end-to-end statement 'the rebuilt mapping equals the old one'; shutdown/flush schedules are outside the technique. Assumed: the scanner/hint-reader coupling counters, HTree.set/remove tree view, hintMgr.setItem, reader seek, reliable I/O, a hint file that has its 16-byte header (the result of open is not checked by the code: a shorter file crashes the restart - observation)"),
  "C03": ("the protocol of the GC pass GCMgr.gc, step by step, for every bucket state, range and record sequence: no tree slot changes its existence, version or value hash (the pass only re-points slots; holds at every return including a cancelled pass); keep rule (a record is kept iff the slot of its key hash points at exactly its position, or it is a tombstone unknown to the tree in a pass not starting at file 0); move (the record appended is the one just scanned, it lands at the destination's write head and the slot is re-pointed at exactly that position); in-place rewriting never lets the write head pass the read position; a rewritten file is truncated only after it was scanned to its end and a file is removed only if it is not the destination; no chunk is left in rewriting state",
          "protocol level, NOT an end-to-end theorem over file contents: an inductive proof over a record view of the files (which record lives at which position) was written and is beyond the solvers (DESIGN.md §3 C03); the step from the verified protocol to 'every key reads the same' is an argument in DESIGN.md. Assumed: chunk operations (AppendRecordGC, endGCWriting, Clear, GetStreamReader), tree view (HTree.get/set), hint manager calls, scan-end ghost state set by DataStreamReader.Next, no collisions, no concurrent writes, reliable I/O, data files never larger than DataFileMax. Not covered: restart after GC (resurrection through rebuilt indexes), the choice of the destination file, hint merging"),
  "C18": ("same contract as C03 (GCMgr.gc): the keep rule decides exactly which records reach the destination (only the current record of a key or a retained tombstone), each kept record is written once at the write head, a fully scanned rewritten file is cut at the write head (endGCWriting is called for every destination, so every chunk ends idle), a source that is not the destination is removed",
@@ -39,7 +41,6 @@ NA = {
 }
 PENDING = "contract chain not completed: the top-level obligations of this property are not under contract (DESIGN.md §0 and §3 say what exists and what is missing)"
 NA.update({
- "C02": "not decided: restart/recovery (Bucket.open, hint replay, tree dump/load, directory listing) is not under contract; only the pieces shared with C09/C14 (record scanner, hint codec) are verified — contract chain not completed (DESIGN.md §3 C02)",
 })
 
 props = [json.loads(l) for l in open('/verif/properties.jsonl')]
